@@ -35,23 +35,68 @@ func (f *Frame) storeTo(obj, off *Term, vals []*Term) {
 	}
 }
 
-// checkWrite emits the frame obligation for a write of n slots at (obj, off).
+// checkWrite emits the frame obligations for a write of n slots at (obj, off): against the
+// function's assigns clause (when the function's frame is checked) and against the assigns
+// clause of every enclosing loop that has one.
 func (f *Frame) checkWrite(obj, off, n *Term, what string, pos token.Pos) {
-	fs := f.frameSpecActive()
-	if fs == nil || f.spec {
+	if f.spec {
 		return
 	}
 	tb := f.tb()
-	ok := tb.Not(tb.Ult(obj, tb.BV(32, freshBase))) // fresh object
-	if ok.IsTrue() {
-		return
-	}
 	end := tb.Add(off, n)
-	for _, r := range fs.regions {
-		in := tb.And(r.cond, tb.Eq(obj, r.obj), tb.Ule(r.lo, off), tb.Ule(end, r.hi))
-		ok = tb.Or(ok, in)
+	if fs := f.frameSpecActive(); fs != nil {
+		ok := tb.Not(tb.Ult(obj, tb.BV(32, freshBase))) // fresh object
+		if !ok.IsTrue() {
+			for _, r := range fs.regions {
+				in := tb.And(r.cond, tb.Eq(obj, r.obj), tb.Ule(r.lo, off), tb.Ule(end, r.hi))
+				ok = tb.Or(ok, in)
+			}
+			f.u.addObl("frame", f.anchorFor(what), f.cur.reach, ok, f.pos(pos), "write outside the function's assigns clause")
+		}
 	}
-	f.u.addObl("frame", f.anchorFor(what), f.cur.reach, ok, f.pos(pos), "write outside the function's assigns clause")
+	for _, lf := range f.activeLoopFrames() {
+		ok := tb.Not(tb.Ult(obj, lf.limit)) // allocated since the loop was entered
+		if ok.IsTrue() {
+			continue
+		}
+		for _, r := range lf.regions {
+			in := tb.And(r.cond, tb.Eq(obj, r.obj), tb.Ule(r.lo, off), tb.Ule(end, r.hi))
+			ok = tb.Or(ok, in)
+		}
+		if ok.IsTrue() {
+			continue
+		}
+		f.u.addObl("frame", f.anchorFor(fmt.Sprintf("loop%d:%s", lf.ord, what)), f.cur.reach, ok, f.pos(pos), fmt.Sprintf("write outside the assigns clause of loop %d", lf.ord))
+	}
+}
+
+// loopFrame: the assigns clause of a loop that is being executed. limit: objects with an id
+// at or above it were allocated after the loop was entered.
+type loopFrame struct {
+	owner   *Frame
+	li      *loopInfo
+	ord     int
+	limit   *Term
+	regions []region
+}
+
+// activeLoopFrames: the loops with an assigns clause around the instruction being executed -
+// those of the callers of an expanded function and those of this function whose body contains
+// the current block.
+func (f *Frame) activeLoopFrames() []*loopFrame {
+	var out []*loopFrame
+	for _, lf := range f.loopFrames {
+		if lf.owner == f && (f.curBlk == nil || !lf.li.body[f.curBlk]) {
+			continue
+		}
+		out = append(out, lf)
+	}
+	return out
+}
+
+// writeChecksActive: some frame (function or loop) is being checked.
+func (f *Frame) writeChecksActive() bool {
+	return !f.spec && (f.frameSpecActive() != nil || len(f.activeLoopFrames()) > 0)
 }
 
 func (f *Frame) frameSpecActive() *frameSpec {
